@@ -72,6 +72,12 @@ def _multiset(r: dict[str, Any]) -> Any:
     return [o["status"], {f: sorted(v) for f, v in o["per_file"].items()}, o["other"], o["stderr"]]
 
 
+def _sorted_run(r: dict[str, Any]) -> dict[str, Any]:
+    per_file, other = runner.split_output(r.get("stdout") or "")
+    lines = [l for f in sorted(per_file) for l in sorted(per_file[f])] + other
+    return dict(r, stdout="\n".join(lines) + ("\n" if lines else ""))
+
+
 def compare(par: dict[str, Any], seq: dict[str, Any], what: str) -> dict[str, Any] | None:
     par, seq = _norm(par), _norm(seq)
     # C07 states "the same diagnostics and exit status"; it does not state an order. A parallel
@@ -79,14 +85,14 @@ def compare(par: dict[str, Any], seq: dict[str, Any], what: str) -> dict[str, An
     # so messages of one file are compared as a multiset (status, summary and stderr exactly).
     if _multiset(par) == _multiset(seq):
         return None
-    if runner.differs_only_in_only_once(par, seq):
-        return {"kind": "only_once_note", "where": what, "diff": runner.first_difference(par, seq)}
-    if runner.partial_output_before_blocker(par, seq):
-        return {"kind": "partial_output_before_blocker", "where": what, "diff": runner.first_difference(par, seq)}
+    # the soft classes are defined on ordered per-file lists; apply them to order-normalised runs
+    soft = runner.soft_difference(_sorted_run(par), _sorted_run(seq))
+    if soft is not None:
+        return {"kind": "soft", "classes": soft, "where": what, "diff": runner.first_difference(par, seq)}
     return {"kind": "parallel_differs", "where": what, "diff": runner.first_difference(par, seq)}
 
 
-SOFT = ("only_once_note", "partial_output_before_blocker")
+SOFT = ("soft",)
 
 
 def evaluate(scn: dict[str, Any], tag: str, script: list[int] | None = None) -> dict[str, Any]:
@@ -367,7 +373,8 @@ def run(tier: str) -> int:
     ]
     n = 90 if tier == "quick" else FAMILY["model"]
     n_det = 6 if tier == "quick" else 40
-    known = kit.load_known_findings(PROP) + [e for e in kit.load_known_findings("C02") if e["match"]["kind"] in SOFT]
+    known = kit.load_known_findings(PROP)
+    known_soft = kit.load_known_findings("C02")
     det, _ = kit.run_pool(det_task, [(k, tier) for k in kit.sample_indices(PROP, "det", FAMILY["model"], n_det)])
     bad = [d for d in det if not d["same"]]
     if bad:
@@ -386,12 +393,21 @@ def run(tier: str) -> int:
         total_dec += r.get("decisions", 0)
         if "violation" in r:
             v = r["violation"]
-            key = v["violation"]["kind"] + ":" + str(v["violation"].get("where", ""))
+            key = v["violation"]["kind"] + ":" + str(v["violation"].get("classes", "")) + ":" + str(v["violation"].get("where", ""))
             if "case" in v["scenario"] and v["violation"]["kind"] not in SOFT:
                 key += ":" + v["scenario"]["case"]
             by_class.setdefault(key, []).append(v)
     unknown = []
     for cls, vs in sorted(by_class.items()):
+        if vs[0]["violation"]["kind"] == "soft":
+            es = kit.match_soft(vs[0]["violation"]["classes"], known_soft)
+            if es is not None:
+                for e_ in es:
+                    rep.known_finding(e_["what"])
+                rep.probes["soft_" + vs[0]["violation"]["classes"]] = rep.probes.get("soft_" + vs[0]["violation"]["classes"], 0) + len(vs)
+                continue
+            unknown.append(vs[0])
+            continue
         e = match_known(vs[0], known)
         if e is not None:
             rep.known_finding(f"{e['what']} (class {cls}, occurrences this run: {len(vs)})")
